@@ -31,14 +31,15 @@ NFClasses(vt, req) ==
     [] vt = "anys" -> {"strArr", "mixedArr"}
     [] vt = "strs" -> {"strArr"}
     [] vt = "typeUnion" -> {"str", "strArr2"}
-    [] vt = "schemaOrArray" -> {"schema", "schemaList1", "schemaList2"}
-    [] vt = "schemaOrBool" -> {"schema", "true", "false"}
+    [] vt = "schemaOrArray" -> {"schema", "schemaList1", "schemaList2", "refObj"}
+    [] vt = "schemaOrBool" -> {"schema", "true", "false", "refObj"}
     [] vt = "map:schemaOrStrings" -> {"depSchema", "depStrs", "depBoth"}
     [] vt = "security" -> {"sec1", "secEmptyScopes", "secTwo"}
     [] vt = "scopes" -> IF req THEN {"scopes1", "scopesEmpty"} ELSE {"scopes1"}
     [] vt = "anymap" -> {"ex1", "ex2"}
     [] vt = "ref" -> {"refLocal", "refRemote"}
     [] vt = "kind:paths" -> IF req THEN {"obj", "emptyObj"} ELSE {"obj"}
+    [] vt = "kind:schema" -> {"obj", "refObj"}            \* a schema may be given as a reference
     [] OTHER -> IF KidKind(vt) = "" THEN {"str"}
                 ELSE IF IsPrefix4(vt, "map:") THEN {"map1", "map2"}
                 ELSE IF IsPrefix4(vt, "list:") THEN {"list1", "list2"}
@@ -67,7 +68,13 @@ BadInScope(o) == {i \in 1..Len(o.badptr) : InScope(o.badptr[i].trail)}
 Scalars == {"true", "false", "zero", "num", "emptyStr", "str", "frac", "int", "neg"}
 KF(o) ==
   LET c == o.case IN
-  (IF \E m \in Members(c) : IsReq(c, m) /\ m.cls \in {"emptyStr", "scopesEmpty"} THEN {"KF-REQUIRED-EMPTY"} ELSE {})
+  \* the required members that sit behind omitempty (the finding lists exactly these; a required member that IS
+  \* written when empty - response.description, oauth2 authorizationUrl - is not covered)
+  (IF \E m \in Members(c) : /\ IsReq(c, m) /\ m.cls \in {"emptyStr", "scopesEmpty"}
+                              /\ <<c.kind, m.name>> \in {<<"info", "title">>, <<"info", "version">>, <<"license", "name">>, <<"externalDocs", "url">>,
+                                     <<"tag", "name">>, <<"parameter", "name">>, <<"parameter", "type">>, <<"header", "type">>,
+                                     <<"securityScheme", "name">>, <<"securityScheme", "tokenUrl">>, <<"securityScheme", "scopes">>}
+   THEN {"KF-REQUIRED-EMPTY"} ELSE {})
   \cup (IF c.kind \in {"externalDocs", "xml"} /\ \E m \in Members(c) : (IsPrefix4(m.name, "x-") \/ IsPrefix4(m.name, "X-")) THEN {"KF-EXT-NO-CARRIER"} ELSE {})
   \cup (IF \E m \in Members(c) : m.vt \in {"num", "int"} /\ m.cls = "zero" THEN {"KF-GOB-ZERO"} ELSE {})
   \cup (IF \E m \in Members(c) : m.cls \in {"withEmpty", "emptyArr", "mix"} THEN {"KF-GOB-EMPTY-ARRAY"} ELSE {})
